@@ -13,6 +13,7 @@ import PicoVerif.Spec.LuaLex
 import PicoVerif.Model.PicoGrammar
 import PicoVerif.Model.AstWriters
 import PicoVerif.Model.Build
+import PicoVerif.Model.Include
 /-! Line-protocol driver over the executable models (compiled; must not import Mathlib).
 One request per line: `op arg arg ...`; one response line per request.
 Byte strings travel as lower-case hex (`-` = empty). -/
@@ -144,6 +145,8 @@ def parseToks (toks : List Lex.Tok) : String :=
   | .error e => showErr e
   | .ok none => "err parse"
   | .ok (some (ts, _)) => "ok " ++ String.join ((ts.map project).flatten.map showTree)
+
+def pathBytes (p : List Char) : Bytes := p.map (fun c => c.toNat.toUInt8)
 
 def rowsOfFlat (w : Nat) (flat : Bytes) : List Bytes := chunks (4 * w) flat
 
@@ -392,6 +395,44 @@ def handle (st : St) (line : String) : St × String :=
       | .ok r => "ok " ++ " ".intercalate (Build.secs.map fun s => String.ofList ((r s).map fun b => Char.ofNat b.toNat))
       | .error e => showErr e
     | none => "bad-op"
+  | ["normpath", h] => (parseHex h).elim "bad-op" fun d => "ok " ++ showHex (pathBytes (Path.normpath (Inc.bytesToPath d)))
+  | ["dirname", h] => (parseHex h).elim "bad-op" fun d => "ok " ++ showHex (pathBytes (Path.dirname (Inc.bytesToPath d)))
+  | ["pathjoin", a, b] =>
+    match parseHex a, parseHex b with
+    | some a, some b => "ok " ++ showHex (pathBytes (Path.join (Inc.bytesToPath a) (Inc.bytesToPath b)))
+    | _, _ => "bad-op"
+  | ["within", a, b] =>
+    match parseHex a, parseHex b with
+    | some a, some b => if Path.isWithin (Inc.bytesToPath a) (Inc.bytesToPath b) then "ok 1" else "ok 0"
+    | _, _ => "bad-op"
+  | ["rootfor", home, f] =>
+    match parseHex home, parseHex f with
+    | some h, some f => "ok " ++ showHex (pathBytes (Inc.rootFor (Inc.bytesToPath h) (Gen.cartPaths.map String.toList) (Inc.bytesToPath f)))
+    | _, _ => "bad-op"
+  | ["matchinc", h] => (parseHex h).elim "bad-op" fun d =>
+      match Inc.matchInclude d with
+      | some m => s!"ok {showHex m.path} {showHex m.ext} " ++ (match m.tab with | some t => toString t | none => "n")
+      | none => "none"
+  | ["incline", root, dir, h] =>
+    match parseHex root, parseHex dir, parseHex h with
+    | some r, some d, some l =>
+      match Inc.matchInclude l with
+      | none => "pass"
+      | some m =>
+        let full := Path.normpath (Path.join (Inc.bytesToPath d) (Inc.bytesToPath (m.path ++ m.ext)))
+        if !Path.isWithin full (Inc.bytesToPath r) then "err outside-root"
+        else s!"want {showHex (pathBytes full)} {showHex m.ext} " ++ (match m.tab with | some t => toString t | none => "n")
+    | _, _, _ => "bad-op"
+  | ["tabs", t, cs] =>
+    match optNat t, parseChunks cs with
+    | some t, some l => "ok " ++ showRows ((Inc.linesForTab t l 0).map Inc.withNewline)
+    | _, _ => "bad-op"
+  | ["reqrej", h] => (parseHex h).elim "bad-op" fun d => if Inc.requireRejected d then "ok 1" else "ok 0"
+  | ["reqcand", p, d, lp] =>
+    match parseHex p, parseHex d, parseHex lp with
+    | some p, some d, some lp =>
+      "ok " ++ showRows ((Inc.requireCandidates (Inc.bytesToPath p) (Inc.bytesToPath d) (Inc.bytesToPath lp)).map pathBytes)
+    | _, _, _ => "bad-op"
   | ["speclex", h] => (parseHex h).elim "bad-op" fun d =>
       match Spec.Lex.lexSource d with
       | some ts => showToks (.ok ts)
